@@ -29,6 +29,7 @@ RULE = (
     ' Round 5: cases run under generated time zones and compare the time replies of both versions.'
     ' Round 7: fractional report payloads; sequences of the same report (growing, shrinking, repeating) with commands parked in between.'
     ' Round 8: req / internal application sends.'
+    ' Round 9: writes compared in order; re-issued parked commands; report sequences ending empty.'
 )
 ASSUMPTIONS = [
     "gateway.protocol_version = v (public setter) pins each gateway",
